@@ -3,7 +3,7 @@ import FiberModel.C20.Spec
 import FiberModel.C20.CookieScan
 /-
 Driver for C20. Case fields (after the id):
-  key(hex) except(hexlist) mode(0|1|2) okey(hex, harness only) steps(symbolic, harness only) aux obs
+  key(hex) except(hexlist) mode(codec[.next.recover]) okey(hex, harness only) steps(symbolic, harness only) aux obs
 `aux` = facts derived by the harness with fasthttp's parsers and an independent AES-GCM open, `obs` =
 what the implementation did (see harness/cmd/c20/main.go). The driver never computes AES: the model's
 `Aead` is the finite table of (nonce, ciphertext‖tag, plaintext) triples behind the values the real
@@ -42,53 +42,110 @@ structure AuxStep where
   jar : Jar
   lookKeys : List Bytes
   pre : List RCookie
-  postParse : List (Bytes × Bytes × Bytes)     -- pkey, pvalue, tail of each cookie after the middleware
-  opens : List (Option Bytes)                  -- independent open of each value after the middleware
+  midParse : List (Bytes × Bytes × Bytes)      -- pkey, pvalue, tail of each cookie where the middleware is left
+  opens : List (Option Bytes)                  -- independent open of each of those values
   stored : List Bytes                          -- Cookie header values as fasthttp stored them
   direct : Jar                                 -- SetCookie calls made on top
+  skip : Bool                                  -- Config.Next must say skip
+  flow : Flow
+  opre : List RCookie
+  late : List Late
+  wireParse : List (Bytes × Bytes × Bytes)
+  midNameless : List Bool
+  wireNameless : List Bool
 
 def sect (tag : Char) (s : String) : Except String String :=
   match s.toList with
   | c :: r => if c == tag then pure (String.ofList r) else throw s!"outside-domain: expected section {tag}"
   | [] => throw s!"outside-domain: empty section {tag}"
 
+def parseRCookies (s : String) : Except String (List RCookie) :=
+  (listOf s).mapM fun e => match e.splitOn ":" with
+    | [a, b, c, d, f] => do
+      pure ({ key := ← comp a, raw := ← comp b, pkey := ← comp c, pvalue := ← comp d, tail := ← comp f } : RCookie)
+    | _ => throw "outside-domain: bad cookie entry"
+
+/-- parse of a Set-Cookie text (pkey, pvalue, tail). A 4th component `n` marks a text the harness read
+    as a NAMELESS cookie although fasthttp's parser splits it at the base64 padding (`<b64>==`): for
+    those the scanner model must read a (name, value) with name ++ "=" ++ value = the reported value. -/
+def parseParses (s : String) : Except String (List (Bytes × Bytes × Bytes) × List Bool) := do
+  let es ← (listOf s).mapM fun e => match e.splitOn ":" with
+    | [a, b, c] => do pure ((← comp a, ← comp b, ← comp c), false)
+    | [a, b, c, "n"] => do
+      let a ← comp a
+      if !a.isEmpty then throw "outside-domain: nameless with a name"
+      pure ((a, ← comp b, ← comp c), true)
+    | _ => throw "outside-domain: bad parse entry"
+  pure (es.map (·.1), es.map (·.2))
+
+/-- the scanner model agrees with how the harness read a Set-Cookie text -/
+def scanAgrees (raw : Bytes) (pp : Bytes × Bytes × Bytes) (nameless : Bool) : Bool :=
+  let r := scanSetCookie raw
+  if nameless then r.1 ++ [61] ++ r.2 == pp.2.1 else r == (pp.1, pp.2.1)
+
 def parseAuxStep (s : String) : Except String AuxStep := do
   match s.splitOn "/" with
-  | [j, k, r, p, t, q, d] =>
+  | [j, k, r, p, t, q, d, n, f, o, a, u] =>
     let jar ← parseJar (← sect 'J' j)
     let ks ← (listOf (← sect 'K' k)).mapM comp
-    let pre ← (listOf (← sect 'R' r)).mapM fun e => match e.splitOn ":" with
-      | [a, b, c, d, f] => do
-        pure ({ key := ← comp a, raw := ← comp b, pkey := ← comp c, pvalue := ← comp d, tail := ← comp f } : RCookie)
-      | _ => throw "outside-domain: bad R entry"
-    let pp ← (listOf (← sect 'P' p)).mapM fun e => match e.splitOn ":" with
-      | [a, b, c] => do pure (← comp a, ← comp b, ← comp c)
-      | _ => throw "outside-domain: bad P entry"
+    let pre ← parseRCookies (← sect 'R' r)
+    let (pp, ppn) ← parseParses (← sect 'P' p)
     let ops ← (listOf (← sect 'T' t)).mapM fun e =>
       if e == "x" then pure none else do pure (some (← comp e))
     if pp.length != ops.length then throw "outside-domain: P/T length"
     let stored ← (listOf (← sect 'Q' q)).mapM comp
     let direct ← parseJar (← sect 'D' d)
-    pure { jar := jar, lookKeys := ks, pre := pre, postParse := pp, opens := ops, stored := stored, direct := direct }
+    let skip ← match (← sect 'N' n) with
+      | "0" => pure false
+      | "1" => pure true
+      | _ => throw "outside-domain: N"
+    let flow ← match (← sect 'F' f) with
+      | "o" => pure Flow.ok
+      | "e" => pure Flow.err
+      | "p" => pure Flow.panic
+      | _ => throw "outside-domain: F"
+    let opre ← parseRCookies (← sect 'O' o)
+    let late ← (listOf (← sect 'A' a)).mapM fun e => match e.splitOn ":" with
+      | [kd, a, b, c, d, f] => do
+        let rep ← if kd == "r" then pure true else if kd == "a" then pure false else throw "outside-domain: late kind"
+        pure ({ replace := rep,
+                w := { key := ← comp a, raw := ← comp b, pkey := ← comp c, value := ← comp d, tail := ← comp f } } : Late)
+      | _ => throw "outside-domain: bad A entry"
+    let (up, upn) ← parseParses (← sect 'U' u)
+    pure { jar := jar, lookKeys := ks, pre := pre, midParse := pp, opens := ops, stored := stored, direct := direct,
+           skip := skip, flow := flow, opre := opre, late := late, wireParse := up,
+           midNameless := ppn, wireNameless := upn }
   | _ => throw "outside-domain: aux step sections"
 
 structure ObsStep where
+  ran : Bool
   views : Views
+  next : String
+  mid : Jar
   wire : Option Jar        -- none = panic
   extra : String           -- anything unexpected the harness flagged
 
 def parseObsStep (s : String) : Except String ObsStep := do
   match s.splitOn "/" with
-  | [e, l, b, h, w] =>
+  | [v, e, l, b, h, n, m, w] =>
+    let ran ← match (← sect 'V' v) with
+      | "0" => pure false
+      | "1" => pure true
+      | _ => throw "outside-domain: V"
     let wtxt ← sect 'W' w
     let (wcore, extra) := match wtxt.splitOn "!" with
       | [x] => (x, "")
       | x :: r => (x, "!".intercalate r)
       | [] => ("", "")
     let wire ← if wcore == "panic" then pure none else do pure (some (← parseJar wcore))
-    pure { views := { enum := ← parseJar (← sect 'E' e), look := ← parseJar (← sect 'L' l),
-                      bind := ← parseBind (← sect 'B' b), hdr := ← comp (← sect 'H' h) },
-           wire := wire, extra := extra }
+    let hs ← ((← sect 'H' h).splitOn ":").mapM comp
+    let (h0, more) := match hs with
+      | x :: r => (x, r)
+      | [] => ([], [])
+    pure { ran := ran,
+           views := { enum := ← parseJar (← sect 'E' e), look := ← parseJar (← sect 'L' l),
+                      bind := ← parseBind (← sect 'B' b), hdr := h0, more := more },
+           next := ← sect 'N' n, mid := ← parseJar (← sect 'M' m), wire := wire, extra := extra }
   | _ => throw "outside-domain: obs step sections"
 
 /-- table entry behind an issued value -/
@@ -103,35 +160,44 @@ def tableAead (t : List Entry) : Aead :=
       | none => b "?not-sealed-by-the-server?",
     openWith := fun _ n c => (t.find? fun e => e.nonce == n && e.body == c).map (·.plain) }
 
-def wireOf (mode : Nat) : WireCodec := if mode == 2 then wrapWire else stdWire
+def wireOf (mode : Nat) : WireCodec := if mode ≥ 2 then wrapWire else stdWire
 
-/-- (wire text, plaintext) pairs and table entries a step issued -/
-def stepIssued (wc : WireCodec) (a : AuxStep) : Issued × List Entry :=
-  let pairs := (a.postParse.zip a.opens).filterMap fun (pp, o) => o.map fun p => (pp.2.1, p)
+/-- (wire text, plaintext) pairs and table entries a step issued: the values, read where the middleware
+    is left, at the positions of the handlers' non-excepted cookies of a step that is not skipped, with
+    the plaintext an independent open gives -/
+def stepIssued (wc : WireCodec) (ex : List Bytes) (a : AuxStep) : Issued × List Entry :=
+  let pairs := if a.skip then [] else
+    (a.pre.zip (a.midParse.zip a.opens)).filterMap fun (c, pp, o) =>
+      if isDisabled c.key ex then none else o.map fun p => (pp.2.1, p)
   let ents := pairs.filterMap fun (c, p) =>
     (wc.canon c).map fun bs => { nonce := bs.take nonceSize, body := bs.drop nonceSize, plain := p : Entry }
   (pairs, ents)
 
-def renderStep (ex : List Bytes) (C : Codec) (wc : WireCodec) (a : AuxStep) : String × Option (List WCookie) × Jar :=
-  let v := modelViews C ex a.jar a.lookKeys
-  let e := v.enum
-  -- the randomness each encryption drew: read off the value at the same position after the middleware
-  let nonces := (a.pre.zip a.postParse).filterMap fun (c, pp) =>
-    if isDisabled c.key ex then none
-    else some (((wc.canon pp.2.1).map (·.take nonceSize)).getD [])
-  let w := encryptJar C ex nonces a.pre
-  let wtxt := match w with
-    | none => "panic"
-    | some ws => renderJar (ws.map fun (x : WCookie) => (x.key, x.raw))
-  (s!"E{renderJar v.enum}/L{renderJar v.look}/B{renderBind v.bind}/H{hc v.hdr}/W{wtxt}", w, e)
+def renderViews (v : Views) : String :=
+  s!"E{renderJar v.enum}/L{renderJar v.look}/B{renderBind v.bind}/H{":".intercalate ((v.hdr :: v.more).map hc)}"
+
+def renderW (ws : List WCookie) : String := renderJar (ws.map fun (x : WCookie) => (x.key, x.raw))
+
+def zipW (j : Jar) (pp : List (Bytes × Bytes × Bytes)) : List WCookie :=
+  (j.zip pp).map fun (kr, p) => { key := kr.1, raw := kr.2, pkey := p.1, value := p.2.1, tail := p.2.2 : WCookie }
+
+def modeParts (s : String) : Except String (Nat × Nat × Bool) :=
+  match s.splitOn "." with
+  | [c] => match c.toNat? with
+    | some c => if c ≤ 3 then pure (c, 0, false) else throw "outside-domain: mode"
+    | none => throw "outside-domain: mode"
+  | [c, n, r] => match c.toNat?, n.toNat?, r.toNat? with
+    | some c, some n, some r =>
+      if c ≤ 3 && n ≤ 3 && r ≤ 1 then pure (c, n, r == 1) else throw "outside-domain: mode"
+    | _, _, _ => throw "outside-domain: mode"
+  | _ => throw "outside-domain: mode"
 
 def handleCase (f : List String) : Except String Verdict := do
   match f with
   | [id, key, ex, mode, _okey, _steps, aux, impl] =>
     let some key := fromHex key | throw "outside-domain: key"
     let some ex := hexList ex | throw "outside-domain: except"
-    let some mode := mode.toNat? | throw "outside-domain: mode"
-    if mode > 2 then throw "outside-domain: mode"
+    let (mode, nextMode, recoverFront) ← modeParts mode
     if ctorPanics key then
       return { id := id, modelObs := "ctorpanic", implObs := impl, spec := none, tags := ["ctorpanic"] }
     if impl == "ctorpanic" then
@@ -144,50 +210,94 @@ def handleCase (f : List String) : Except String Verdict := do
     let keyValid := match decode key with
       | some kd => validKeyLen kd.length
       | none => false
-    let allEnts := (auxs.map fun a => (stepIssued wc a).2).flatten
+    let allEnts := (auxs.map fun a => (stepIssued wc ex a).2).flatten
     let A := tableAead allEnts
-    let C := if mode == 2 then wrapCodec (stdCodec A key) else stdCodec A key
+    let m : Mw :=
+      if mode == 3 then { codec := faultyCodec (stdCodec A key), decPanics := faultyDecPanics, except := ex }
+      else if mode == 2 then { codec := wrapCodec (stdCodec A key), decPanics := fun _ => false, except := ex }
+      else stdMw A key ex
+    let C := m.codec
+    let told : Told :=
+      { keyValid := keyValid, encFails := if mode == 3 then faultyEnc else fun _ => false,
+        decPanics := if mode == 3 then faultyDecPanics else fun _ => false }
     let mut modelParts : List String := []
     let mut spec : Option String := none
     let mut iss : Issued := []
     let mut tags : List String := []
     for (a, o) in auxs.zip obss do
-      let (mtxt, _, e) := renderStep ex C wc a
+      -- the Config.Next decision is an input (which header the request carries, which Next is
+      -- configured); a next mode that can never skip must not be told to
+      if a.skip && nextMode != 2 && nextMode != 3 then throw "outside-domain: skip without Next"
+      if nextMode == 3 && !a.skip then throw "outside-domain: Next always skips"
+      if o.mid.length != a.midParse.length then throw "outside-domain: M/P length"
+      if let some ws := o.wire then
+        if ws.length != a.wireParse.length then throw "outside-domain: W/U length"
+      -- the randomness each encryption drew: read off the value at the same position where the
+      -- middleware is left; a dummy where the implementation stopped (the model decides itself)
+      let nonces := ((a.pre.zip (List.range a.pre.length)).filterMap fun (c, i) =>
+        if isDisabled c.key ex then none
+        else match a.midParse[i]? with
+          | some pp => some (((wc.canon pp.2.1).map (·.take nonceSize)).getD [])
+          | none => some (List.replicate nonceSize 0))
+      let x : Exchange :=
+        { skip := a.skip, jar := a.jar, ks := a.lookKeys, opre := a.opre, cookies := a.pre, flow := a.flow,
+          nonces := nonces, recover := recoverFront, late := a.late }
+      let out := serve m x
+      let vtxt := match out.views with
+        | some v => "V1/" ++ renderViews v
+        | none => "V0/E-/L-/B-/H_"
+      let ntxt := if nextMode == 0 then "-" else if a.skip then "1.1" else "1.0"
+      let wtxt := match out.wire with
+        | none => "panic"
+        | some ws => renderW ws
+      let mtxt := s!"{vtxt}/N{ntxt}/M{renderW out.mid}/W{wtxt}"
       -- the cookie scanner model must reproduce fasthttp's view of the request and of every Set-Cookie
       let scanOK := parseCookieHeaders a.stored a.direct == a.jar &&
         (a.pre.all fun c => scanSetCookie c.raw == (c.pkey, c.pvalue)) &&
+        ((o.mid.zip (a.midParse.zip a.midNameless)).all fun (kr, pp, nl) => scanAgrees kr.2 pp nl) &&
         (match o.wire with
          | none => true
-         | some ws => (ws.zip a.postParse).all fun (kr, pp) => scanSetCookie kr.2 == (pp.1, pp.2.1))
+         | some ws => (ws.zip (a.wireParse.zip a.wireNameless)).all fun (kr, pp, nl) => scanAgrees kr.2 pp nl)
       modelParts := modelParts ++ [if scanOK then mtxt else "scanner-model-mismatch:" ++ mtxt]
       -- spec oracle on the implementation's observation
+      let (pairs, _) := stepIssued wc ex a
+      let issAfter := iss ++ pairs
       if spec.isNone then
-        spec := reqViolation wc ex iss a.jar o.views
-      let (pairs, _) := stepIssued wc a
-      iss := iss ++ pairs
-      if spec.isNone then
-        let post : Option (List WCookie) := o.wire.map fun ws =>
-          (ws.zip a.postParse).map fun (kr, pp) =>
-            { key := kr.1, raw := kr.2, pkey := pp.1, value := pp.2.1, tail := pp.2.2 : WCookie }
-        if let some ws := o.wire then
-          if ws.length != a.postParse.length then throw "outside-domain: W/P length"
-        spec := respViolation wc ex keyValid iss a.pre post
+        let seen : Outcome :=
+          { views := if o.ran then some o.views else none,
+            mid := zipW o.mid a.midParse,
+            wire := o.wire.map fun ws => zipW ws a.wireParse }
+        spec := exchangeViolation wc ex told iss issAfter x seen
+      iss := issAfter
+      if spec.isNone && !noncesOK wc iss then spec := some "nonce-reused"
       if spec.isNone && o.extra != "" then spec := some s!"harness-flag:{o.extra}"
       -- branch tags
       let nonEx := a.jar.filter fun kv => !isDisabled kv.1 ex
-      if nonEx.any fun kv => (C.dec kv.2).isSome then tags := tags ++ ["nt-authentic-in"]
-      if nonEx.any fun kv => kv.2 != [] && (C.dec kv.2).isNone then tags := tags ++ ["nt-rejected-in"]
-      if nonEx.any fun kv => (C.dec kv.2).isSome && !(iss.any fun p => p.1 == kv.2) then
-        tags := tags ++ ["nt-noncanonical-accepted"]
+      if !a.skip then
+        if nonEx.any fun kv => (C.dec kv.2).isSome then tags := tags ++ ["nt-authentic-in"]
+        if nonEx.any fun kv => kv.2 != [] && (C.dec kv.2).isNone then tags := tags ++ ["nt-rejected-in"]
+        if nonEx.any fun kv => (C.dec kv.2).isSome && !(iss.any fun p => p.1 == kv.2) then
+          tags := tags ++ ["nt-noncanonical-accepted"]
+        if a.pre.any fun c => !isDisabled c.key ex then tags := tags ++ ["nt-encrypted-out"]
       if (distinctKeys a.jar).length != a.jar.length then tags := tags ++ ["nt-dup-request-names"]
       if (a.pre.map (·.key)).eraseDups.length != a.pre.length then tags := tags ++ ["nt-dup-response-names"]
-      if a.pre.any fun c => !isDisabled c.key ex then tags := tags ++ ["nt-encrypted-out"]
       if a.jar.any fun kv => isDisabled kv.1 ex then tags := tags ++ ["except-in"]
       if a.pre.any fun c => isDisabled c.key ex then tags := tags ++ ["except-out"]
-      if e.length != a.jar.length then tags := tags ++ ["dedup-applied"]
+      if !a.skip && (out.views.map (·.enum.length)) != some a.jar.length then tags := tags ++ ["dedup-applied"]
+      if a.skip then
+        tags := tags ++ (if a.jar.isEmpty && a.pre.isEmpty then ["next-skip"] else ["nt-next-skip"])
+      if a.flow == Flow.err then tags := tags ++ ["nt-handler-error"]
+      if a.flow == Flow.panic then tags := tags ++ ["nt-handler-panic"]
+      if !a.late.isEmpty then tags := tags ++ ["nt-late-writes"]
+      if a.late.any fun l => l.replace && out.mid.any fun w => w.key == l.w.key then
+        tags := tags ++ ["nt-late-replace"]
+      if !a.opre.isEmpty then tags := tags ++ ["nt-cookies-set-in-front"]
+      if out.views.isNone then tags := tags ++ ["nt-decryptor-panic"]
+      if !a.skip && out.views.isSome && out.mid.length < a.pre.length then tags := tags ++ ["nt-encryptor-stopped"]
       if o.wire.isNone then tags := tags ++ ["panic"]
     let tagsOut := tags.eraseDups ++ (if keyValid then [] else ["invalid-key"]) ++
-      (if mode == 2 then ["custom-codec"] else if mode == 1 then ["explicit-codec"] else [])
+      (if mode == 3 then ["faulty-codec"] else if mode == 2 then ["custom-codec"] else if mode == 1 then ["explicit-codec"] else []) ++
+      (if nextMode != 0 then [s!"next-mode-{nextMode}"] else []) ++ (if recoverFront then ["recover-in-front"] else [])
     pure { id := id, modelObs := ";".intercalate modelParts, implObs := impl, spec := spec, tags := tagsOut }
   | _ => throw s!"outside-domain: expected 8 fields, got {f.length}"
 
